@@ -652,10 +652,10 @@ func (s *Sim) loop() {
 		t.runnable = false
 		s.Step++
 		s.cur = t
-		if t.parkedAt == "start" && s.traceOn {
-			s.logf("RUN t%d@%d start[%s] #%d c%d", t.ID, t.Node, t.Label, s.tapePos, len(cands))
-		} else {
-			s.logf("RUN t%d@%d %s #%d c%d", t.ID, t.Node, t.parkedAt, s.tapePos, len(cands))
+		s.logf("RUN t%d@%d %s #%d c%d", t.ID, t.Node, t.parkedAt, s.tapePos, len(cands))
+		if t.parkedAt == "start" && s.traceOn && len(s.trace) > 0 {
+			// the task label (spawn site) is shown in the trace only; it is not part of the digest
+			s.trace[len(s.trace)-1] += " [" + t.Label + "]"
 		}
 		s.ilHash = s.ilHash*1099511628211 ^ uint64(t.ID)<<8 ^ uint64(len(t.parkedAt))
 		for i := 0; i < len(t.parkedAt) && i < 24; i++ {
@@ -731,20 +731,34 @@ func Run(cfg Config, body func(s *Sim)) (res Result) {
 				t.dead = true
 			}
 			s.mu.Unlock()
-			for i := 0; i < 5000; i++ {
+			// release every task: runnable ones exit at once; sleepers and ticker loops are flushed out by
+			// letting simulated time run ahead (otherwise they would stay blocked for ever and pile up across runs)
+			jumps := 0
+			for i := 0; i < 20000; i++ {
 				bubbleWait()
 				s.mu.Lock()
 				rs := s.runnable
-				if len(rs) == 0 {
+				if len(rs) > 0 {
+					sort.Slice(rs, func(i, j int) bool { return rs[i].ID < rs[j].ID })
+					t := rs[0]
+					s.runnable = rs[1:]
+					t.runnable = false
 					s.mu.Unlock()
+					t.wake <- struct{}{}
+					continue
+				}
+				alive := 0
+				for _, t := range s.all {
+					if !t.done {
+						alive++
+					}
+				}
+				s.mu.Unlock()
+				if alive == 0 || jumps >= 12 {
 					break
 				}
-				sort.Slice(rs, func(i, j int) bool { return rs[i].ID < rs[j].ID })
-				t := rs[0]
-				s.runnable = rs[1:]
-				t.runnable = false
-				s.mu.Unlock()
-				t.wake <- struct{}{}
+				jumps++
+				time.Sleep(time.Duration(jumps*jumps) * time.Minute)
 			}
 			cur = nil
 		})
